@@ -103,7 +103,7 @@ def run(ctx):
     seqs = []
     for a, b in itertools.product(reps, reps):
         seqs.append((a, b))
-    if ctx.tier == "thorough" or ctx.escalated:
+    if ctx.tier == "thorough":
         for a, b, c in itertools.product(REPS, REPS, REPS):
             seqs.append((a, b, c))
     else:
